@@ -20,7 +20,10 @@ What is proved:
   bound with any compressor (`record_bytes_exact`, `batch_length_exact`, `batch_length_le`, `message_set_length_le`);
 * batch bound: record batches (`batch_bound`: buffered with the version unknown or ≥ 3, written at any version ≥ 3)
   and message sets (`message_set_bound`: buffered with the version unknown or equal to the written version 0–2);
-  a record is rejected only when it does not fit an empty batch (`reject_only_oversized`);
+  a record is rejected only when it does not fit an empty batch (`reject_only_oversized`), and a record whose
+  one-record batch would reach the limit is rejected (`oversized_rejected`, `oversized_with_headers_rejected`);
+  records are arbitrary `Rec`s — any key, value and *any list of headers*; no theorem assumes an empty header list,
+  and `batch_bound_counts_headers` states the batch bound directly in key + value + header bytes;
 * request accounting: `createReq`'s running `wireLength` is `base + reqAcct` and at most the limit (`createReq_accounting`);
 * **request bound, every version 0–13**, version known to the sink (`request_bound`, `request_bound_any_order`,
   `request_length_le`), with the exact written length for v3–v13 without compressor (`request_length_exact`);
@@ -140,6 +143,63 @@ theorem reject_only_oversized (bs : List Batch) (r : Rec) (pv m : Int) (h : (buf
   split at key
   · assumption
   · simp at key
+
+/-- **The batch bound counts header bytes.** `Rec.headers` is an arbitrary list in every theorem of this file; this
+corollary spells the dependence out. Every batch buffered while the produce version is unknown or at least 3 holds
+strictly less than `ProducerBatchMaxBytes - 61` bytes of user data, where user data is every record's key, value
+*and the key and value of each of its headers* (`userSum`), plus 7 bytes of framing per record. A `tryBuffer` that
+sized the incoming record as a message (`messageSet1Length`: key + value + 38, no headers) while the version is
+unknown would falsify exactly this (and `batch_bound`): the proof needs `recordWireLengthFor ≥` the record's
+record-batch length (`rwl_ge`). -/
+theorem batch_bound_counts_headers (c : Cfg) (topic : Bytes) (pv : Int) (rs : List Rec) (hpv : V2Acct pv) :
+    ∀ b ∈ (bufferAll pv (maxRecordBatchBytesForTopic c topic) [] rs).1,
+      (61 : Int) + userSum b.records + 7 * b.records.length < c.maxRecordBatchBytes := by
+  intro b hb
+  have hB := buffered_batches pv (maxRecordBatchBytesForTopic c topic) rs b hb
+  have hu := userSum_le_wireSum 0 b.records hB.1.ok
+  have hw := hB.1.wire
+  have hm : maxRecordBatchBytesForTopic c topic ≤ c.maxRecordBatchBytes := by
+    unfold maxRecordBatchBytesForTopic; simp only; split <;> omega
+  have := hB.2.2 hpv
+  simp only [batchLength, recordBatchOverhead] at this hw
+  omega
+
+/-- **A record that is too large on its own is failed, headers included** (the converse of `reject_only_oversized`
+under record-batch accounting): when the one-record batch of `r` — 61 bytes of batch header plus the record with
+all its headers — would not be strictly smaller than the limit, `bufferRecord` does not buffer `r` (the code fails
+it with MESSAGE_TOO_LARGE), whatever batches the partition already holds. -/
+theorem oversized_rejected (bs : List Batch) (r : Rec) (pv m : Int) (hpv : V2Acct pv) (hbs : ∀ b ∈ bs, BatchInv b)
+    (h : m < recordBatchOverhead - 4 + numsWireLength (calculateRecordNumbers newRecordBatch r).1 + 1) :
+    (bufferRecord bs r pv m).2 = false := by
+  have hnew : tryBuffer newRecordBatch r pv m = none := by
+    cases hn : tryBuffer newRecordBatch r pv m with
+    | none => rfl
+    | some nb => have := tryBuffer_fits_new _ _ r pv m hpv inv_new hn; omega
+  unfold bufferRecord
+  simp only [hnew]
+  cases bs with
+  | nil => rfl
+  | cons last rest =>
+    simp only
+    cases hl : tryBuffer last r pv m with
+    | none => rfl
+    | some b' => have := tryBuffer_fits_new _ _ r pv m hpv (hbs last (List.mem_cons_self ..)) hl; omega
+
+/-- the same in user bytes: a record whose key, value and header bytes reach the limit minus 69 is failed -/
+theorem oversized_with_headers_rejected (bs : List Batch) (r : Rec) (pv m : Int) (hpv : V2Acct pv)
+    (hbs : ∀ b ∈ bs, BatchInv b) (h : m < 69 + (userBytes r : Int)) : (bufferRecord bs r pv m).2 = false := by
+  have := numsWireLength_new_ge r
+  exact oversized_rejected bs r pv m hpv hbs (by simp only [recordBatchOverhead]; omega)
+
+/-- a record with a one-byte header key and a 100-byte header value, nil key and value -/
+def hRec : Rec := { ts := 0, key := none, value := none, headers := [⟨[0x68#8], some (List.replicate 100 0#8)⟩] }
+
+/-- non-vacuity, with headers: while the version is unknown `hRec` is failed against a limit of 150 although as a
+message (headers dropped) it would fit an empty batch — the record "that fits only if its headers are ignored" -/
+example : (bufferRecord [] hRec (-1) 150).2 = false ∧ recordBatchOverhead + messageSet1Length hRec ≤ 150 := by
+  refine ⟨oversized_with_headers_rejected [] hRec (-1) 150 (Or.inl (by omega)) (by simp) ?_, ?_⟩
+  · simp [userBytes, headersBytes, hRec, blen]
+  · simp [recordBatchOverhead, messageSet1Length, messageSet0Length, hRec, blen]
 
 /-- `createReq`'s size accounting, for every set of partition buffers and every rotation: the request's
 `wireLength` is the base length plus the closed form `reqAcct` (per partition: 4 + the batch length at the known
